@@ -383,11 +383,16 @@ class GhostArray:
     def __setitem__(self, k, v):
         may_fault(self.w.ctx, "Array[...]=")
         self.written = True
+        self.group.W = z3.Store(self.group.W, self.name, z3.BoolVal(True))
         self.touch()
 
 
+FIELDS = ("A", "R", "G", "W", "done")
+
+
 class GhostGroup:
-    """A zarr group being written.  A / R / G: which attribute keys / child arrays / child groups exist;
+    """A zarr group being written.  A / R / G: which attribute keys / child arrays / child groups exist; W: the child
+    arrays that received data;
     `done`: GHOST - the names whose serialisation was completed by a normally returning `_serialize_value`
     (set only by that contract, never by a library call)."""
 
@@ -399,10 +404,10 @@ class GhostGroup:
         self.parent = parent
         if unknown:
             n = w.ctx.fresh_name(tag)
-            self.A, self.R, self.G = (z3.Const(f"{n}_{x}", z3.ArraySort(STR, BOOL)) for x in "ARG")
-            self.done = z3.Const(f"{n}_done", z3.ArraySort(STR, BOOL))
+            for f in FIELDS:
+                setattr(self, f, z3.Const(f"{n}_{f}", z3.ArraySort(STR, BOOL)))
         else:
-            self.A = self.R = self.G = self.done = _FALSE_MAP
+            self.A = self.R = self.G = self.W = self.done = _FALSE_MAP
         self.attrs = GhostAttrs(self)
         self.stamp = 0
         self.children = []
@@ -470,7 +475,7 @@ class GhostGroup:
         ctx = self.w.ctx
         n = ctx.fresh_name(tag)
         q = z3.String(f"{n}_q")
-        for f in ("A", "R", "G", "done"):
+        for f in FIELDS:
             old = getattr(self, f)
             new = z3.Const(f"{n}_{f}", z3.ArraySort(STR, BOOL))
             ctx.assume(z3.ForAll([q], z3.Implies(z3.Select(old, q), z3.Select(new, q)), patterns=[z3.Select(new, q)]))
